@@ -123,6 +123,8 @@ func c18Kinds() []c18Kind {
 func c18Scenario(c *choice.Ctx, rep *report.R, k c18Kind, depth int) {
 	own := env.InstallOwn(0xA5, vRace)
 	defer env.UninstallOwn()
+	pauseBegin(c)
+	defer pauseEnd()
 	network := "udp"
 	if k.tcp {
 		network = "tcp"
@@ -131,7 +133,7 @@ func c18Scenario(c *choice.Ctx, rep *report.R, k c18Kind, depth int) {
 	tr, extraAudit := k.mk(d)
 	var trace []string
 	fail := func(sig, msg string) {
-		rep.Violate("C18:"+k.name+":"+sig, msg+"\n  "+k.name+": "+strings.Join(trace, " "), map[string]any{"Choices": c.Choices(), "Kind": k.name})
+		rep.Violate("C18:"+k.name+":"+sig, msg+"\n  "+k.name+": "+strings.Join(trace, " ")+pauseNote(), map[string]any{"Choices": c.Choices(), "Kind": k.name})
 	}
 	const timeout = 2 * time.Second
 	var calls []*call
@@ -168,7 +170,7 @@ func c18Scenario(c *choice.Ctx, rep *report.R, k c18Kind, depth int) {
 			menu = append(menu, event{name: fmt.Sprintf("start%d", len(calls)), do: func() {
 				cl := newCall(len(calls), 0)
 				calls = append(calls, cl)
-				afterClose[cl.idx] = closes > 0
+				afterClose[cl.idx] = closes > 0 && closeReturned == closes
 				cl.start(tr, timeout)
 			}})
 		}
@@ -286,6 +288,11 @@ func c18Scenario(c *choice.Ctx, rep *report.R, k c18Kind, depth int) {
 		trace = append(trace, ev.name)
 		ev.do()
 		wait()
+		if paused() {
+			// a goroutine stands still between two statements: "Close has returned", "everything is closed", "fails at once" are
+			// judged once it has been resumed (next resume event, or the end of the run)
+			continue
+		}
 		if closeReturned != closes {
 			fail("close-blocks", fmt.Sprintf("Close did not return (%d of %d calls returned)", closeReturned, closes))
 		}
@@ -320,6 +327,9 @@ func c18Scenario(c *choice.Ctx, rep *report.R, k c18Kind, depth int) {
 	}
 	if closes == 0 {
 		doClose()
+		wait()
+	}
+	if resume() { // a goroutine held at a pause point goes on only now, after Close
 		wait()
 	}
 	for d.Pending() > 0 { // dials still in progress complete now, after Close
